@@ -159,7 +159,7 @@ def gen(tier, rng, scale):
             kinds = "".join(rng.choice("uuspznn") for _ in range(rng.choice([0, 1, 1, 2, 3, 4])))
             gkinds.append(kinds)
             if rng.chance(1, 2):
-                ops.append(["G", "Ty%d" % g, kinds or "-"])
+                ops.append(["G", "Ty%d" % g, kinds or "-"] + (["c%d" % rng.below(nq[0])] if nq[0] and rng.chance(1, 2) else []))
         pending_g = [g for g in range(len(gkinds)) if not any(o[0] == "G" and o[1] == "Ty%d" % g for o in ops)]
         registered = [g for g in range(len(gkinds)) if g not in pending_g]
         for _ in range(rng.range(5, 60)):
@@ -187,7 +187,7 @@ def gen(tier, rng, scale):
             elif r < 72 and threads and (registered or pending_g):
                 if pending_g and (not registered or rng.chance(1, 2)):
                     g = pending_g.pop(0)           # a type registered late, between markers of other types
-                    ops.append(["G", "Ty%d" % g, gkinds[g] or "-"])
+                    ops.append(["G", "Ty%d" % g, gkinds[g] or "-"] + (["c%d" % rng.below(nq[0])] if nq[0] and rng.chance(1, 2) else []))
                     registered.append(g)
                 g = rng.choice(registered)
                 # the k-th G op in the line defines runtime type #k
@@ -197,6 +197,11 @@ def gen(tier, rng, scale):
                 vals = [str(rng.below(1000)) if k == "n" else rng.choice(["foo", "bar", "txt", "v%d" % rng.below(5), "mk", "~"]) for k in gkinds[g]]
                 fr = pick_frames(th, 0, 4) if rng.chance(1, 3) else []
                 ops.append(["R", th, rng.choice("IVBE"), t, t + rng.below(20), tyno, rng.choice(["mk", "rm", "foo", "~"]), ",".join(vals) or "-"] + fr)
+            elif r < 74 and threads and use_cats:
+                th = rng.below(len(threads))
+                t = times.get(th, 100) + rng.range(1, 50)
+                times[th] = t
+                ops.append(["J", th, t, rng.choice(["mk", "lay", "~"]), rng.choice(["txt", "foo", "~"])])       # a static marker type with a category of its own
             elif r < 80:
                 p = rng.below(nproc)
                 ops.append(["C", p, "ctr%d" % counters])
@@ -255,6 +260,11 @@ def _valid(ops):
             o = o[:5] + frames_ok(o[1], o[5:])
         elif k == "G":
             gk.append("" if o[2] == "-" else o[2])
+            if len(o) > 3 and int(o[3][1:]) >= nq[0]:
+                o = o[:3]
+        elif k == "J":
+            if o[1] >= nt:
+                continue
         elif k == "R":
             if o[1] >= nt or o[5] >= len(gk):
                 continue
@@ -307,7 +317,7 @@ BAD = 999999999
 
 
 def _kinds_by_type(ops):
-    kb = {"Text": (["name"], "u")}
+    kb = {"Text": (["name"], "u"), "LayoutText": (["name"], "u")}
     for o in ops:
         if o[0] == "G":
             kinds = "" if o[2] == "-" else o[2]
@@ -386,6 +396,7 @@ def _coq_case(ops, prof):
     lpaths = []          # the identity of a library in the content ids is its path (names may repeat)
     samples, mstacks, visible, selected, counters = [], [], [], [], []
     mops, nschemas, gtypes, text_ty = [], 0, [], None
+    mcats, layout_ty = [], [None]
     kb = _kinds_by_type(ops)
     KIND = {"u": "KUnique", "s": "KStr", "p": "KStr", "z": "KStr", "n": "KNum"}
     symtabs = {}
@@ -567,10 +578,22 @@ def _coq_case(ops, prof):
         elif k == "G":
             kinds = "" if o[2] == "-" else o[2]
             mops.append("(None, 0, MReg %s)" % K.coq_list([KIND[x] for x in kinds]))
-            gtypes.append((nschemas, kinds))
+            gtypes.append((nschemas, kinds, qmap[int(o[3][1:])] if len(o) > 3 else None))
             nschemas += 1
+        elif k == "J":
+            if layout_ty[0] is None:
+                # the first marker of the type: its schema is registered and its CATEGORY looked up by value
+                mops.append("(None, 0, MReg [KUnique])")
+                cops.append("(CCat %d %d)" % (S("Layout"), COLORS.index("blue")))
+                layout_ty[0] = (nschemas, len(cops) - 1)
+                nschemas += 1
+            mops.append("(Some %d%%nat, %d, MAdd %d%%nat [%d])" % (o[1], S(o[3]), layout_ty[0][0], S(o[4])))
+            reqs.append("(%d%%nat, FString %d)" % (o[1], S(o[3])))
+            reqs.append("(%d%%nat, FString %d)" % (o[1], S(o[4])))
+            mcats.append((o[1], layout_ty[0][1]))
         elif k == "R":
-            ty, kinds = gtypes[o[5]]
+            ty, kinds, gcat = gtypes[o[5]]
+            mcats.append((o[1], gcat))
             vals = [] if o[7] == "-" else o[7].split(",")
             reqs.append("(%d%%nat, FString %d)" % (o[1], S(o[6])))
             for kd, v in zip(kinds, vals):
@@ -587,6 +610,7 @@ def _coq_case(ops, prof):
                 text_ty = nschemas
                 nschemas += 1
             mops.append("(Some %d%%nat, %d, MAdd %d%%nat [%d])" % (o[1], S(o[3]), text_ty, S(o[4])))
+            mcats.append((o[1], None))
             reqs.append("(%d%%nat, FString %d)" % (o[1], S(o[3])))
             reqs.append("(%d%%nat, FString %d)" % (o[1], S(o[4])))
             if len(o) > 5:
@@ -704,7 +728,8 @@ def _coq_case(ops, prof):
         col = c.get("color")
         obcats.append("(%d, %d, %s)" % (S(c.get("name")), COLORS.index(col) if col in COLORS else BAD, K.coq_list([str(S(x)) for x in c.get("subcategories", [])])))
     assert len(req_sc) == len(reqs)
-    return "(mkCase %s %s %s %s %s %s %s %s %s %s %s %s %s %s %s %s %d 12 %s %s %s)" % (
+    obmcats = [K.coq_list(["%d%%nat" % (x if isinstance(x, int) and x >= 0 else BAD) for x in th["markers"]["category"]]) for th in prof["threads"]]
+    return "(mkCase %s %s %s %s %s %s %s %s %s %s %s %s %s %s %s %s %d 12 %s %s %s %s %s)" % (
         K.coq_list(["(%d, %d)" % p for p in procs]),
         K.coq_list(["(%d%%nat, %d, %d, %s, %s)" % (t[0], t[1], t[2], "true" if t[3] else "false", "None" if t[4] is None else "(Some %d)" % t[4]) for t in threads]),
         K.coq_list(["(%d%%nat, %d, %s)" % (h, t, nat(fr)) for h, t, fr in samples]),
@@ -712,7 +737,8 @@ def _coq_case(ops, prof):
         nat(visible), nat(selected), nat(counters), K.coq_list(oth),
         nat(meta.get("initialVisibleThreads", [])), nat(meta.get("initialSelectedThreads", [])), K.coq_list(obc),
         K.coq_list(reqs), K.coq_list(oblibs), K.coq_list(otables), K.coq_list(mops), K.coq_list(obmarkers),
-        S("Other"), K.coq_list(cops), K.coq_list(["None" if x is None else "(Some %d%%nat)" % x for x in req_sc]), K.coq_list(obcats))
+        S("Other"), K.coq_list(cops), K.coq_list(["None" if x is None else "(Some %d%%nat)" % x for x in req_sc]), K.coq_list(obcats),
+        K.coq_list(["(%d%%nat, %s)" % (t, "None" if j is None else "(Some %d%%nat)" % j) for t, j in mcats]), K.coq_list(obmcats))
 
 
 def evaluate(cases):
@@ -748,6 +774,7 @@ def evaluate(cases):
         stats["categories"] = stats.get("categories", 0) + len(prof["meta"].get("categories", []))
         stats["named_subcategories"] = stats.get("named_subcategories", 0) + sum(max(len(c.get("subcategories", [])) - 1, 0) for c in prof["meta"].get("categories", []))
         stats["frames_outside_default_category"] = stats.get("frames_outside_default_category", 0) + sum(1 for th in prof["threads"] for a, b in zip(th["frameTable"]["category"], th["frameTable"]["subcategory"]) if a or b)
+        stats["markers_outside_default_category"] = stats.get("markers_outside_default_category", 0) + sum(1 for th in prof["threads"] for a in th["markers"]["category"] if a)
         stats["counters"] += len(prof.get("counters", []))
         stats["visible_refs"] += len(prof["meta"].get("initialVisibleThreads", []))
         c["_summary"] = {"threads": [(t["pid"], t["tid"], t["name"], t["isMainThread"]) for t in prof["threads"]],
